@@ -123,23 +123,32 @@ def acctOf (cfg : Config) (ex ho : String) : Nat := cfg.exchanges.idxOf ex * 100
 def acctNameOf (cfg : Config) (i : Nat) : String := s!"{cfg.exchanges.getD (i / 1000) ""}_{cfg.holders.getD (i % 1000) ""}"
 def holderOfAcct (cfg : Config) (i : Nat) : String := cfg.holders.getD (i % 1000) ""
 
-/-- the whole run from spreadsheet cells: every configured asset's sheet is parsed (`parseSheet`), then `run` -/
-def runCells (o : Options) (cfg : Config) (grids : List (String × List (List Cell))) : Outcome :=
-  let names := match o.only with | some a => [a] | none => sortBy (fun a b => decide (a < b)) cfg.assets
-  -- sheets are parsed in processing order; the artificial-id counter is shared by all assets of the run
-  let step (acc : List AssetIn × Nat) (a : String) : Except String (List AssetIn × Nat) :=
-    match grids.find? (·.1 == a) with
-    | none => Except.error s!"sheet {a} missing"
-    | some g => match parseSheet cfg a (acctOf cfg) g.2 acc.2 with
-      | .error _ => Except.error s!"parse error in {a}"
-      | .ok p => Except.ok (acc.1 ++ [(⟨a, p.ins, p.outs, p.intras⟩ : AssetIn)], acc.2 + (p.outs.filter (fun (t : OutTx) => decide (t.row < 0))).length)
-  let parsed : Except String (List AssetIn) := (names.foldlM step ([], 0)).map (fun (r : List AssetIn × Nat) => r.1)
-  match parsed with
+/-- one asset's sheet parsed; the artificial-id counter (second component) is shared by all assets of the run -/
+def parseStep (cfg : Config) (lookup : String → Option (List (List Cell))) (acc : List AssetIn × Nat) (a : String) : Except String (List AssetIn × Nat) :=
+  match lookup a with
+  | none => Except.error s!"sheet {a} missing"
+  | some g => match parseSheet cfg a (acctOf cfg) g acc.2 with
+    | .error _ => Except.error s!"parse error in {a}"
+    | .ok p => Except.ok (acc.1 ++ [(⟨a, p.ins, p.outs, p.intras⟩ : AssetIn)], acc.2 + (p.outs.filter (fun (t : OutTx) => decide (t.row < 0))).length)
+
+/-- every asset to process, in processing order, parsed from its sheet (`parse_ods` per asset); fails at the first sheet that is missing
+    or does not parse -/
+def parseAll (o : Options) (cfg : Config) (lookup : String → Option (List (List Cell))) : Except String (List AssetIn) :=
+  ((assetNames o cfg.assets).foldlM (parseStep cfg lookup) ([], 0)).map (fun (r : List AssetIn × Nat) => r.1)
+
+/-- the whole run from spreadsheet cells, the sheets given as a lookup by name: every configured asset's sheet is parsed (`parseSheet`),
+    then `run` -/
+def runCellsWith (o : Options) (cfg : Config) (lookup : String → Option (List (List Cell))) : Outcome :=
+  match parseAll o cfg lookup with
   | .error e =>
     -- option errors are reported before the input is read
     let pre := run o (acctNameOf cfg) (holderOfAcct cfg) cfg.assets []
     if pre.stage.startsWith "input" then reject s!"input: {e}" else pre
   | .ok sheets => run o (acctNameOf cfg) (holderOfAcct cfg) cfg.assets sheets
+
+/-- the sheets of the workbook in file order: a sheet is found by its name -/
+def runCells (o : Options) (cfg : Config) (grids : List (String × List (List Cell))) : Outcome :=
+  runCellsWith o cfg (fun a => (grids.find? (·.1 == a)).map (·.2))
 
 /-- the rejections that precede the reading of the configuration file (argparse, language, `from_date > to_date`) -/
 def preConfig (o : Options) : Option Outcome :=
